@@ -33,6 +33,7 @@ UNDEF = Undef()
 FEAS_TIMEOUT_MS = 2000
 
 import itertools as _it
+_LAYOUT = {}
 _FRESH = _it.count(1)
 _RAT = {}
 def rationalise(f):
@@ -76,6 +77,8 @@ class Interp:
         s.fptosi_log = []
         s.table_loads = []
         s.round_log = []
+        s._lay = _LAYOUT.setdefault(id(module), {})
+        s.div_by_sym = []
         s.watch = {}
         s.events = []
         s._mcache = {}
@@ -89,6 +92,12 @@ class Interp:
         while isinstance(ty, NamedTy): ty = s.m.types[ty.name]
         return ty
     def align(s, ty):
+        if isinstance(ty, NamedTy):
+            r = s._lay.get(('a', ty.name))
+            if r is None: r = s._align(ty); s._lay[('a', ty.name)] = r
+            return r
+        return s._align(ty)
+    def _align(s, ty):
         ty = s.resolve(ty)
         if isinstance(ty, IntTy): return max(1, min(8, (ty.bits + 7) // 8)) if ty.bits <= 64 else 16
         if isinstance(ty, FloatTy): return 8 if ty.bits == 64 else (4 if ty.bits == 32 else 16)
@@ -100,6 +109,12 @@ class Interp:
             return max(s.align(e) for e in ty.els)
         raise Unsupported('align %r' % ty)
     def size(s, ty):
+        if isinstance(ty, NamedTy):
+            r = s._lay.get(('s', ty.name))
+            if r is None: r = s._size(ty); s._lay[('s', ty.name)] = r
+            return r
+        return s._size(ty)
+    def _size(s, ty):
         ty = s.resolve(ty)
         if isinstance(ty, IntTy): return (ty.bits + 7) // 8 if ty.bits <= 64 else 16
         if isinstance(ty, FloatTy): return ty.bits // 8 if ty.bits != 80 else 16
@@ -117,6 +132,12 @@ class Interp:
             return off
         raise Unsupported('size %r' % ty)
     def field_off(s, ty, k):
+        if isinstance(ty, NamedTy):
+            key = ('f', ty.name, k); r = s._lay.get(key)
+            if r is None: r = s._field_off(ty, k); s._lay[key] = r
+            return r
+        return s._field_off(ty, k)
+    def _field_off(s, ty, k):
         ty = s.resolve(ty); off = 0
         for j, e in enumerate(ty.els):
             if not ty.packed:
@@ -418,6 +439,15 @@ class Interp:
         if op == 'sdiv' and not is_sym(b):
             bb = sgn(b)
             if bb > 0: return z3.If(A >= 0, A / bb, -((-A) / bb))
+        if op in ('sdiv', 'srem'):
+            # C semantics: truncation toward zero; z3's Int division is floor for non-negative operands
+            absA = z3.If(A >= 0, A, -A); absB = z3.If(B >= 0, B, -B)
+            s.assume(B != 0)                       # division by zero is UB: outside the explored behaviour (recorded)
+            s.div_by_sym.append(B)
+            q = absA / absB
+            if op == 'sdiv': return z3.If((A >= 0) == (B > 0), q, -q)
+            r = absA % absB
+            return z3.If(A >= 0, r, -r)
         raise Unsupported('symbolic int op %s' % op)
     def icmp(s, pred, a, b, bits):
         def sgn(x): return x - (1 << bits) if x >> (bits - 1) else x
